@@ -263,29 +263,29 @@ type symAssign struct {
 
 type symStore struct {
 	Base, Index, Val *Poly
-	Field string
-	Conds []symCond
-	Stmt  ast.Stmt
-	Loop  int
+	Field            string
+	Conds            []symCond
+	Stmt             ast.Stmt
+	Loop             int
 }
 
 type symExec struct {
-	stores  []symStore
-	assigns []symAssign
+	stores    []symStore
+	assigns   []symAssign
 	loopDepth int
-	c      *Ctx
-	p      *packages.Package
-	env    map[types.Object]*Poly
-	conds  []symCond
-	calls  []symCall
-	rets   []symRet
-	fresh  int
-	pure   func(callee types.Object) bool // calls whose result is a function of (receiver, args)
-	inline func(callee types.Object) *ast.FuncDecl
-	loopK  []string
-	undec  []string
-	onCall func(s *symExec, call *ast.CallExpr, callee types.Object) // observes a call in the current environment
-	onIndex func(s *symExec, ix *ast.IndexExpr, base, index *Poly)     // observes an element read
+	c         *Ctx
+	p         *packages.Package
+	env       map[types.Object]*Poly
+	conds     []symCond
+	calls     []symCall
+	rets      []symRet
+	fresh     int
+	pure      func(callee types.Object) bool // calls whose result is a function of (receiver, args)
+	inline    func(callee types.Object) *ast.FuncDecl
+	loopK     []string
+	undec     []string
+	onCall    func(s *symExec, call *ast.CallExpr, callee types.Object) // observes a call in the current environment
+	onIndex   func(s *symExec, ix *ast.IndexExpr, base, index *Poly)    // observes an element read
 }
 
 func (c *Ctx) newSymExec(p *packages.Package) *symExec {
@@ -1148,3 +1148,34 @@ func condIs(c symCond, op token.Token, l, r *Poly) bool {
 }
 
 func ratHalf() *big.Rat { return big.NewRat(1, 2) }
+
+// lessForm returns the comparison c in the form l < r (strict) or l <= r, whatever orientation and negation it was
+// written with; ok is false for equalities and non-comparisons.
+func (c symCond) lessForm() (l, r *Poly, strict, ok bool) {
+	op := c.op
+	if c.neg {
+		switch op {
+		case token.LSS:
+			op = token.GEQ
+		case token.LEQ:
+			op = token.GTR
+		case token.GTR:
+			op = token.LEQ
+		case token.GEQ:
+			op = token.LSS
+		default:
+			return nil, nil, false, false
+		}
+	}
+	switch op {
+	case token.LSS:
+		return c.l, c.r, true, true
+	case token.LEQ:
+		return c.l, c.r, false, true
+	case token.GTR:
+		return c.r, c.l, true, true
+	case token.GEQ:
+		return c.r, c.l, false, true
+	}
+	return nil, nil, false, false
+}
